@@ -5,6 +5,8 @@ import (
 	"bufio"
 	"flag"
 	"fmt"
+	"io"
+	"log/slog"
 	"os"
 	"strings"
 
@@ -18,6 +20,8 @@ func main() {
 	replay := flag.String("replay", "", "file with case lines to re-run instead of generating")
 	list := flag.Bool("list", false, "list registered properties")
 	flag.Parse()
+	// the library logs every recovered panic with a stack trace: not part of any observation
+	slog.SetDefault(slog.New(slog.NewTextHandler(io.Discard, nil)))
 	if *list {
 		fmt.Println(strings.Join(run.Ids(), " "))
 		return
